@@ -171,6 +171,10 @@ def regen(variant, dest, modules, extra_files=None, quiet=True):
         fh.write("pub const VARIANT: &str = \"%s\";\n" % variant)
         fh.write("/// the trampoline search range the allocator of this variant uses\n")
         fh.write("pub const VARIANT_RANGE: u64 = 0x%x;\n" % rng)
+    # private copy of the libc shim (checks running in parallel must not see each other's edits)
+    shim_dst = os.path.join(dest, "shim_libc")
+    shutil.rmtree(shim_dst, ignore_errors=True)
+    shutil.copytree(os.path.join(VERIF, "shims", "libc"), shim_dst, ignore=shutil.ignore_patterns("target", "Cargo.lock"))
     # Cargo project
     with open(os.path.join(dest, "Cargo.toml"), "w") as fh:
         fh.write('''[package]
@@ -188,7 +192,7 @@ libc = { path = "%s" }
 
 [lints.rust]
 unexpected_cfgs = { level = "allow", check-cfg = ['cfg(kani)'] }
-''' % os.path.join(VERIF, "shims", "libc"))
+''' % shim_dst)
     os.makedirs(os.path.join(dest, ".cargo"), exist_ok=True)
     with open(os.path.join(dest, ".cargo", "config.toml"), "w") as fh:
         fh.write("[net]\noffline = true\n")
